@@ -401,6 +401,66 @@ def special_corruption(sym, case, warm=()):
     sym.check("no-text-returned", text is None)
 
 
+IN_PLACE_CASES = ["image-checksums-cleared", "image-additional-variants-appended", "variant-arches-cleared", "child-arch-added", "tree-platform-discarded",
+                  "tree-image-path-replaced", "tree-checksum-key-added", "discinfo-numbers-cleared"]
+
+
+def corrupt_in_place(sym, case, primed_by):
+    """an object that has been validated before - it was written once, or it was read from a file - is corrupted by editing one of its
+    containers in place (no attribute is assigned): the next write is refused like the first write of such an object would be"""
+    text = None
+    if case.startswith("image-"):
+        top, imgs = base_images(0)
+        cls = Images
+    elif case.startswith("variant-") or case.startswith("child-"):
+        top, objs = base_composeinfo(0)
+        cls = ComposeInfo
+    elif case.startswith("tree-"):
+        top, objs = base_treeinfo(0)
+        cls = productmd.treeinfo.TreeInfo
+    else:
+        top = base_discinfo()
+        cls = DiscInfo
+    first = top.dumps()
+    if primed_by == "load":
+        top = cls()
+        top.loads(first)
+        if case.startswith("image-"):
+            imgs = sorted([i for v in top.images.values() for a in v.values() for i in a], key=lambda i: i.path)
+        elif cls is ComposeInfo:
+            objs = dict((u, top[u]) for u in ("Server", "Server-HA", "Server-optional", "Client"))
+    sym.cover("primed")
+    if case == "image-checksums-cleared":
+        [i for i in imgs if not i.unified][1].checksums.clear()
+    elif case == "image-additional-variants-appended":
+        [i for i in imgs if not i.unified][0].additional_variants.append("Client")          # not a unified image
+    elif case == "variant-arches-cleared":
+        objs["Server-optional"].arches.clear()
+    elif case == "child-arch-added":
+        objs["Server-HA"].arches.add(sym.choice("foreign_arch", ["ppc64le", "src", "mips"]))
+    elif case == "tree-platform-discarded":
+        top.tree.platforms.discard("xen")          # [images-xen] stays
+    elif case == "tree-image-path-replaced":
+        p = sym.str("path", 4, minlen=1, alphabet="printable")
+        sym.assume(p.startswith("/"))
+        sym.assume(sym.not_(p.endswith(" ")))
+        top.images.images["xen"]["kernel"] = p
+    elif case == "tree-checksum-key-added":
+        top.checksums.checksums["/images/boot.iso"] = ["sha256", "b" * 64]
+    elif case == "discinfo-numbers-cleared":
+        del top.disc_numbers[:]
+    else:
+        raise ValueError(case)
+    sym.cover("corrupted")
+    try:
+        text = top.dumps()
+        raised = False
+    except (ValueError, TypeError):
+        raised = True
+    sym.check("invalid-object-refused-with-ValueError-or-TypeError", raised)
+    sym.check("no-text-returned", text is None)
+
+
 def valid_written(sym, fmt, k):
     """converse: every object whose fields all satisfy their documented rules is written"""
     fields = []
@@ -484,6 +544,9 @@ def jobs(tier, seed):
                  "tree-absolute-image-path", "tree-absolute-stage2", "tree-misaligned-child-uid", "tree-dashed-variant-id"):
         for w in ([], ["images"], ["treeinfo"]) if (big or case.startswith("tree") or "arch" in case or "uid" in case) else ([],):
             out.append({"harness": "special_corruption", "params": {"case": case, "warm": w}})
+    for case in IN_PLACE_CASES:
+        for primed_by in ("dump", "load"):
+            out.append({"harness": "corrupt_in_place", "params": {"case": case, "primed_by": primed_by}})
     for fmt in ("composeinfo", "images", "rpms", "modules", "extra_files", "discinfo", "treeinfo"):
         for k in (range(10) if big else range(seed % 3, 10, 3)):
             out.append({"harness": "valid_written", "params": {"fmt": fmt, "k": k}})
@@ -491,7 +554,7 @@ def jobs(tier, seed):
 
 
 META = {
-    "expected_covers": {"corrupt_field": ["corrupted"], "special_corruption": ["corrupted"], "valid_written": ["built"]},
+    "expected_covers": {"corrupt_field": ["corrupted"], "special_corruption": ["corrupted"], "corrupt_in_place": ["primed", "corrupted"], "valid_written": ["built"]},
     "assumptions": [
         "documented domains D_f written once in harness/domains.py, independent of the validators; corrupting values are symbolic values of every Python kind "
         "(None, bool, int, float from a pool, str, list, dict) constrained only by NOT D_f",
@@ -499,6 +562,8 @@ META = {
         "base objects are concrete valid objects (nested and layered-product variants, three images in two cells); one field is corrupted at a time (the property's quantifier)",
         "treeinfo: release, base product, tree, media and variant fields plus the structural rules (absolute image / stage2 / checksum path, unreferenced platform, "
         "misaligned child UID, dash in a variant id); text values printable ASCII",
+        "corrupt_in_place: the object was written once, or read from its own text, before one of its containers (checksums, additional variants, arch set, "
+        "platform set, image table, checksum table, disc numbers) is edited in place",
         "JSON text layer replaced by the DocText stub",
         "history: before the corruption, valid objects of other formats (a rotating selection) are validated and written in the same process; every path starts from freshly "
         "imported module state (psx.runner.module_state_guard)",
